@@ -33,7 +33,7 @@ CHECKS = {
                         "frames are non-empty multiples of the documented granule"],
     },
     "C14": {
-        "batches": [("C14", "asan", 4, 2500, 150000)],
+        "batches": [("C14", "asan", 4, 6000, 400000)],
         "rule": ("one evaluation = one simulated run of 1-3 streams: Tuner (fs 8..1e5, integer / half-integer / rational / arbitrary fractional f with "
                  "|f| <= fs/2, stream of 2..7 x fs samples so that the internal counter wraps several times) or HilbertFilter (requested length 31..401 "
                  "odd and even), each cut into frames by the transport. Non-trivial: Tuner stream with >= 1 counter wrap and >= 2 frames, or Hilbert "
@@ -41,6 +41,21 @@ CHECKS = {
                  "number of wraps, framing style)."),
         "assumptions": ["reference phase: exact integer reduction of trunc(f)*k mod fs plus the fractional part in long double", "tolerance 1e-7*|x[k]| for the Tuner; exact equality for the delayed real part",
                         "hilbert() and the 1e-3 quadrature accuracy of the designed filter are pure numerics and are NOT decided by this check"],
+    },
+    "C20": {
+        "batches": [("C20", "asan", 4, 20000, 1500000)],
+        "rule": ("one evaluation = one simulated run of one processor (Compressor / Limiter / NoiseGate / Agc) with seeded parameters over the property's grid, "
+                 "driven by 0-12 environment events on the sample clock (level steps biased to the knee edges +-0.01 dB, noise, silence, bursts, ramps) "
+                 "followed by a quiet period at constant envelope of >= 10 time constants (+ hold); arbitrary framing. Every run is non-trivial (invariants are "
+                 "checked at every sample); cases are distinct by (processor, knee>0, zero attack, zero release, quiet level above threshold / inside knee, "
+                 "ratio>1, log2 attack samples, log2 release samples, threshold decade) resp. for Agc (complex, clamp reached, reachable target, log2 "
+                 "averaging length, target and level decades)."),
+        "assumptions": ["10%-90% convention for attack/release times (the MATLAB convention the headers implement with log 9), measured in the domain the processor smooths in",
+                        "settling target of Compressor/Limiter = static gain of the same parameter set measured with zero time constants; the static curve itself is "
+                        "checked separately (unity below the knee, slope 1/R or flat above, continuous at both knee edges within 2e-4 dB, monotone on a 0.01 dB grid, "
+                        "within the hard knee and its largest quadratic rounding (1-1/R)W/8, vanishing third difference)",
+                        "time constants are limited so that 10 of them fit in 40k (quick) / 400k (thorough) samples; 4 s at 192 kHz is therefore not simulated",
+                        "Agc step sizes 0.002..0.2; settling bound derived from the loop contraction |1-2*step| per sample"],
     },
 }
 
